@@ -91,6 +91,14 @@ Theorem C01_server_any_fragmentation : forall (C : callees) (wire : bytes) (ms :
 Proof. exact server_any_fragmentation. Qed.
 Print Assumptions C01_server_any_fragmentation.
 
+(* EITHER machine, ONE message with nothing behind it: the 411 peek needs octets behind a completed message, so even an unframed
+   request (a GET without Content-Length) is delivered identically under every fragmentation by the machine as implemented *)
+Theorem C01_single_message_any_fragmentation : forall (C : callees) (k : kind) (wire : bytes) (m : msg) (frags : list bytes),
+  parse reference C k init wire = (init, [m], None) -> no_lf (m_line m) = true ->
+  concat_bytes frags = wire -> run_keep real C k init frags = (init, [m], None).
+Proof. exact single_message_any_fragmentation. Qed.
+Print Assumptions C01_single_message_any_fragmentation.
+
 (* the form in which the other properties use it: whatever ONE call on the whole stream delivers while ending idle, every
    fragmentation delivers - on the reference machine always, on the machine as implemented on every quiet run *)
 Theorem C01_whole_call_any_fragmentation : forall (C : callees) (k : kind) (wire : bytes) (ms : list msg) (frags : list bytes),
